@@ -210,6 +210,14 @@ func (c *SpecCtx) eval(n *Node) SV {
 			}
 			return v
 		}
+		if len(n.Args) == 1 && n.Args[0].Kind == "ident" && n.Args[0].Name == "param" {
+			// param.NAME: the parameter NAME (its entry value), for bodies that shadow it with a local of the same name
+			if v, ok := c.vars[n.Name]; ok {
+				if _, isLocal := c.vars["param"]; !isLocal {
+					return v
+				}
+			}
+		}
 		if v, ok := c.qualifiedGlobal(n); ok {
 			return v
 		}
